@@ -281,6 +281,98 @@ theorem finishes_in_budget {P : Params} {tl : List Ev} {t0 d t1 : Nat} {pre : Bo
   have hdur := reported_duration hs hb hcn h
   exact ⟨r, h, hinst, hreason, by rw [hdur, hinst]⟩
 
+/-! ## The executor (`localBuildExecutor.Execute`, run stage) -/
+
+/-- **exec_virtual_duration.** For every timeline, every timeout and every way the command
+ends (exit code 0 or not, runner error, never): the run stage ends no later than the wall
+bound and the reported `virtual_execution_duration` is the unsuspended time the command ran. -/
+theorem exec_virtual_duration (P : Params) (tl : List Ev) (t0 d : Nat) (fin : Option RunFinish)
+    (hs : Sorted tl) (hb : Balanced tl) (hthr : 1 ≤ P.thr) (hfin : ∀ f, fin = some f → t0 ≤ f.t) :
+    ∃ o, execRun P tl t0 d fin = some o ∧ o.virt = unsuspended tl t0 o.instant ∧
+      t0 ≤ o.instant ∧ o.instant ≤ t0 + d + P.maxSusp ∧ o.virt ≤ d := by
+  obtain ⟨r, h⟩ := fire_done P tl (fin.map fun f => ⟨f.t, f.pre⟩) t0 d hthr
+  have hcn : ∀ c, (fin.map fun f => (⟨f.t, f.pre⟩ : Cancel)) = some c → t0 ≤ c.t := by
+    intro c hc
+    cases fin with
+    | none => cases hc
+    | some f => cases hc; exact hfin f rfl
+  have hd := reported_duration hs hb hcn h
+  have hw := wall_bound hs hb hcn h
+  have hbud := budget_never_exceeded hs hb hcn h
+  have hle : r.dur ≤ d := by omega
+  unfold execRun
+  rw [h]
+  obtain ⟨inst, reason, dur, st, pS, pA⟩ := r
+  simp only at hd hw hle
+  cases reason <;> cases fin with
+  | none => exact ⟨_, rfl, hd, hw.1, hw.2, hle⟩
+  | some f =>
+    first
+    | exact ⟨_, rfl, hd, hw.1, hw.2, hle⟩
+    | (obtain ⟨ft, fp, fh⟩ := f; cases fh <;> exact ⟨_, rfl, hd, hw.1, hw.2, hle⟩)
+
+/-- **exec_deadline.** `DEADLINE_EXCEEDED` is reported only if the command did not end by
+itself first, and then it had used up its budget: `d − thr < virtual duration ≤ d`, or the
+wall bound was reached. -/
+theorem exec_deadline {P : Params} {tl : List Ev} {t0 d : Nat} {fin : Option RunFinish} {o : ExecResult}
+    (hs : Sorted tl) (hb : Balanced tl) (hfin : ∀ f, fin = some f → t0 ≤ f.t)
+    (h : execRun P tl t0 d fin = some o) (hc : o.code = .deadlineExceeded) :
+    (∀ f, fin = some f → o.instant ≤ f.t) ∧ o.virt ≤ d ∧
+      (d < o.virt + P.thr ∨ o.instant = t0 + d + P.maxSusp) := by
+  have hcn : ∀ c, (fin.map fun f => (⟨f.t, f.pre⟩ : Cancel)) = some c → t0 ≤ c.t := by
+    intro c hc
+    cases fin with
+    | none => cases hc
+    | some f => cases hc; exact hfin f rfl
+  unfold execRun at h
+  cases hf : fire P tl (fin.map fun f => ⟨f.t, f.pre⟩) t0 d with
+  | badOracle => rw [hf] at h; cases h
+  | outOfFuel => rw [hf] at h; cases h
+  | done r =>
+    rw [hf] at h
+    have hd := reported_duration hs hb hcn hf
+    have hbud := budget_never_exceeded hs hb hcn hf
+    have ok := (fire_prompt hs hb hcn hf).1
+    have key : o.virt = r.dur ∧ o.instant = r.instant ∧ r.reason ≠ .cancelled := by
+      cases hr : r.reason with
+      | cancelled =>
+        cases fin with
+        | none =>
+          obtain ⟨c, hc', _⟩ := ok.cancelled hr
+          cases hc'
+        | some f =>
+          simp only [hr] at h
+          cases hh : f.how <;> simp only [hh] at h <;> cases h <;> cases hc
+      | timeout =>
+        cases fin <;> simp only [hr] at h <;> cases h <;> exact ⟨rfl, rfl, by simp⟩
+      | capped =>
+        cases fin <;> simp only [hr] at h <;> cases h <;> exact ⟨rfl, rfl, by simp⟩
+    obtain ⟨hv, hi, hne⟩ := key
+    refine ⟨?_, by omega, ?_⟩
+    · intro f hf'
+      subst hf'
+      have := ok.prompt ⟨f.t, f.pre⟩ rfl
+      simpa [hi] using this
+    · cases hr : r.reason with
+      | cancelled => exact absurd hr hne
+      | capped => right; rw [hi]; exact ok.capped hr
+      | timeout => left; have := (fires_after_budget hs hb hcn hf hr).1; omega
+
+/-- **exec_in_budget.** A command that ends by itself at `t1`, before the wall bound, having
+run at most `d − thr` of unsuspended time, is reported with its own outcome (never
+`DEADLINE_EXCEEDED`) and with virtual duration `unsuspended(t0, t1)` - whatever its exit code,
+and also when the runner failed. -/
+theorem exec_in_budget {P : Params} {tl : List Ev} {t0 d : Nat} {f : RunFinish}
+    (hs : Sorted tl) (hb : Balanced tl) (hthr : 1 ≤ P.thr)
+    (h01 : t0 ≤ f.t) (hwall : f.t < t0 + d + P.maxSusp) (hbud : unsuspended tl t0 f.t + P.thr ≤ d) :
+    execRun P tl t0 d (some f) = some (match f.how with
+      | .exit c => ⟨.ok, some c, unsuspended tl t0 f.t, f.t⟩
+      | .failed => ⟨.runnerError, none, unsuspended tl t0 f.t, f.t⟩) := by
+  obtain ⟨r, h, hi, hr, hd⟩ := finishes_in_budget (pre := f.pre) hs hb hthr h01 hwall hbud
+  unfold execRun
+  simp only [Option.map_some, h, hr]
+  cases f.how <;> simp [hd, hi]
+
 /-! ## The counters -/
 
 /-- **nesting (counter form).** The clock's counters compute the measure of the time
@@ -340,6 +432,13 @@ nothing is suspended until 13, the expiry stamped 10 is handled at 15 after `Sus
 the command really ran 13 ticks, 13 = d + unsuspended(10,15) is reported (`budget_late` is tight). -/
 example : fireL ⟨100, 1⟩ 5 [.suspend 13, .resume 20] none 0 10 0 false [⟨5, 1⟩] =
     .done ⟨15, .timeout, 13, 10, 0, 0⟩ ∧ unsuspended [.suspend 13, .resume 20] 10 15 = 3 := by decide
+/-- The executor: 5 ticks of work, a 30-tick stall, then the command spins: `DEADLINE_EXCEEDED` at
+40 with a virtual duration of 10 (not the 40 ticks of wall time); the same command exiting with
+code 3 at 38 reports 8; a runner failure at 38 also reports 8. -/
+example : execRun ⟨100, 1⟩ [.suspend 5, .resume 35] 0 10 none = some ⟨.deadlineExceeded, none, 10, 40⟩ ∧
+    execRun ⟨100, 1⟩ [.suspend 5, .resume 35] 0 10 (some ⟨38, false, .exit 3⟩) = some ⟨.ok, some 3, 8, 38⟩ ∧
+    execRun ⟨100, 1⟩ [.suspend 5, .resume 35] 0 10 (some ⟨38, false, .failed⟩) = some ⟨.runnerError, none, 8, 38⟩ := by
+  decide
 /-- A position that is not a position of the timeline at the handling instant is rejected. -/
 example : fireL ⟨100, 1⟩ 5 [.suspend 13, .resume 20] none 0 10 0 false [⟨5, 2⟩] = .badOracle := by decide
 
